@@ -15,7 +15,6 @@ import (
 	ecommon "github.com/ethereum/go-ethereum/common"
 	"github.com/ethereum/go-ethereum/core/types"
 	"github.com/ethereum/go-ethereum/crypto"
-	"github.com/polynetwork/poly/common"
 	"github.com/polynetwork/poly/native/service/utils"
 )
 
@@ -257,7 +256,7 @@ func (m *chainModel) cliqueGood(p *node, pick int, mode int, target ecommon.Addr
 }
 
 // startClique installs an msc trust root: a sealed checkpoint header listing the signers.
-func startClique(e *chainEnv, gnum uint64, signers []ecommon.Address, sealedBy int, root ecommon.Hash) (*chainModel, error) {
+func prepareClique(e *chainEnv, gnum uint64, signers []ecommon.Address, sealedBy int, root ecommon.Hash) *trustRoot {
 	gnum -= gnum % e.epoch
 	if gnum == 0 {
 		gnum = e.epoch
@@ -266,20 +265,15 @@ func startClique(e *chainEnv, gnum uint64, signers []ecommon.Address, sealedBy i
 	g := newGenesisHeader(gnum, sorted, ecommon.Address{}, root)
 	g.Difficulty = big.NewInt(1)
 	seal(g, nil, sealerKey(sealedBy))
-	r := e.syncGenesis(headerJSON(g), []common.Address{e.w.Operator()})
-	if !r.OK() {
-		return nil, fmt.Errorf("syncGenesisHeader: %v", r.Err)
-	}
-	e.w.NextBlock()
 	m := &chainModel{e: e, byHash: map[ecommon.Hash]*node{}}
 	gn := &node{h: g, hash: g.Hash(), td: new(big.Int).Set(g.Difficulty), label: "genesis", cs: &cliqueSnap{signers: sorted}, sealer: sealerAddr(sealedBy)}
 	m.genesis = gn
 	m.add(gn)
-	if e.storedRaw(gn.hash) == nil {
-		return nil, fmt.Errorf("genesis header not stored under its hash")
-	}
-	m.markStored(gn)
-	return m, nil
+	return &trustRoot{raw: headerJSON(g), m: m}
+}
+
+func startClique(e *chainEnv, gnum uint64, signers []ecommon.Address, sealedBy int, root ecommon.Hash) (*chainModel, error) {
+	return startRoot(prepareClique(e, gnum, signers, sealedBy, root))
 }
 
 var mscAdapter = &adapter{name: "msc", router: utils.MSC_ROUTER, kind: "clique", period: true}
